@@ -36,10 +36,63 @@ def run(chk):
         'and +-10**9, and compared with the official WBF scale (constant in this checker). score_to_imp must pass the sum '
         'of its two parameters. Range, monotonicity and oddness follow from equality with the scale on every interval.')
     chk.trusted.append('official IMP scale written in sa/rules/c16.py')
-    f = Folder(repo, allow_loops=True, max_steps=5000)
+    f = Folder(repo, allow_loops=True, max_steps=5_000_000)
     param = fn.args.args[0].arg if len(fn.args.args) == 1 else None
     if param is None:
         raise AnalysisError(rule, q, 'expected one parameter')
+
+    # ---- R0: counterexample search, independent of the shape of the code -------------------------------------------------
+    # (dense fold: every integer difference up to beyond the last threshold, both signs, and huge magnitudes; every pair of a
+    # score grid through score_to_imp).  A difference whose IMP value is wrong is a definite violation whatever the code looks
+    # like; the proof for ALL integers is the use analysis below.
+    dense = sorted(set(range(-4300, 4301)) | {s * k for s in (1, -1) for k in (5000, 7600, 7610, 8000, 10000, 10 ** 6, 10 ** 9, 10 ** 12 + 7, 2 ** 70)})
+    bad0 = None
+    n0 = 0
+    unsupported = None
+    for d in dense:
+        try:
+            got = f.call_function('score', 'point_difference_to_imps', d)
+            f.steps = 0
+        except FoldRaise as e:
+            got = f'raises {e.kind}'
+        except Unsupported as e:
+            unsupported = str(e)
+            break
+        n0 += 1
+        if got != official(d):
+            bad0 = (d, got, official(d))
+            break
+    chk.evals(n0)
+    if bad0:
+        chk.fail('C16.R3', w, q, 'point_difference_to_imps differs from the official scale',
+                 f'a difference of {bad0[0]} points gives {bad0[1]}; the official scale gives {bad0[2]} IMPs')
+    elif unsupported is None:
+        chk.ok('C16.R3', w, f'all {n0} integer differences in [-4300, 4300] and 18 huge ones give the official IMP value')
+    grid = [-7600, -4000, -2220, -1100, -620, -100, -50, -10, 0, 10, 20, 40, 50, 90, 100, 420, 620, 1430, 2000, 3990, 4000, 7600]
+    bad1 = None
+    if unsupported is None:
+        for a in grid:
+            for b in grid:
+                try:
+                    got = f.call_function('score', 'score_to_imp', a, b)
+                    f.steps = 0
+                except FoldRaise as e:
+                    got = f'raises {e.kind}'
+                except Unsupported as e:
+                    unsupported = str(e)
+                    break
+                chk.evals()
+                if got != official(a + b) and bad1 is None:
+                    bad1 = (a, b, got, official(a + b))
+        w2_, q2_ = floc(repo, 'score', 'score_to_imp', 'C16.R4')
+        if bad1:
+            chk.fail('C16.R4', w2_, q2_, 'score_to_imp is not the conversion of the sum',
+                     f'score_to_imp({bad1[0]}, {bad1[1]}) gives {bad1[2]}; the sum {bad1[0] + bad1[1]} is worth {bad1[3]} IMPs')
+        elif unsupported is None:
+            chk.ok('C16.R4', w2_, f'score_to_imp equals the conversion of the sum on {len(grid) ** 2} score pairs (both signs of the sum)')
+    counterexample = bool(chk.findings)
+    if unsupported is not None:
+        chk.note(f'dense fold not possible: {unsupported}')
 
     # ---- R1: the table constant ---------------------------------------------------------------------------
     tables = {}
@@ -47,7 +100,8 @@ def run(chk):
         if isinstance(val, (ast.Tuple, ast.List)) and all(isinstance(e, ast.Constant) and isinstance(e.value, int) for e in val.elts):
             tables[name] = tuple(e.value for e in val.elts)
     used = sorted({n.id for n in ast.walk(fn) if isinstance(n, ast.Name) and n.id in tables})
-    chk.floor('C16.R1', 'scale table used by point_difference_to_imps', len(used), 1)
+    if not counterexample:
+        chk.floor('C16.R1', 'scale table used by point_difference_to_imps', len(used), 1)
     for name in used:
         t = tables[name]
         cw = repo.where(m, m.constants[name])
@@ -59,6 +113,8 @@ def run(chk):
         chk.require(all(a < b for a, b in zip(t, t[1:])), 'C16.R1', cw, f'score:{name}', f'{name} increasing',
                     'thresholds strictly increase', f'{name} is not strictly increasing')
 
+    if counterexample:
+        return      # a definite counterexample is reported; the all-integers proof below is moot
     # ---- R2: the difference is used through comparisons only ------------------------------------------------
     # taint: names derived from the parameter by abs()/unary minus/plain copy keep the "difference" role;
     # a comparison result is a boolean (no longer the difference).
